@@ -114,6 +114,8 @@ type World struct {
 
 	AB      *authboss.Authboss
 	DB      *DB
+	AB2     *authboss.Authboss // second site (Config.SecondSite)
+	DB2     *DB
 	Handler http.Handler
 	Reader  *defaults.HTTPBodyReader
 
@@ -480,31 +482,72 @@ func NewWorld(t *testing.T, cfg Config, seed uint64, concurrent bool) *World {
 	w.KB = newKB(w)
 	w.IdP = newIdP(w)
 
-	ab := authboss.New()
-	w.AB = ab
-	jr := defaults.JSONRenderer{}
-	ab.Config.Core.ViewRenderer = simRenderer{w: w, inner: jr}
-	ab.Config.Core.MailRenderer = simRenderer{w: w, inner: jr, mail: true}
-	defaults.SetCore(&ab.Config, cfg.JSON, cfg.UseUsername)
-	logger := defaults.NewLogger(simLogger{w})
-	ab.Config.Core.Logger = logger
-	ab.Config.Core.ErrorHandler = simErrHandler{w: w, def: defaults.NewErrorHandler(logger)}
-	var innerMailer authboss.Mailer = defaults.NewLogMailer(io.Discard)
-	if cfg.SMTPMailer {
-		innerMailer = defaults.NewSMTPMailer("bad:::addr", nil)
+	w.AB = w.newSite(false)
+	if cfg.SecondSite {
+		w.AB2 = w.newSite(true)
+		w.Stats.Reach["cfg_second_site"]++
 	}
-	ab.Config.Core.Mailer = simMailer{w: w, inner: innerMailer}
-	w.Reader = ab.Config.Core.BodyReader.(*defaults.HTTPBodyReader)
-	ab.Config.Core.BodyReader = simBodyReader{inner: w.Reader}
+	ab := w.AB
+	w.lockMod = &lock.Lock{Authboss: ab}
+	w.confirmMod = &confirm.Confirm{Authboss: ab}
+
+	w.Handler = w.buildHandler()
+
+	for i := 0; i < cfg.NBrowsers; i++ {
+		w.Browsers = append(w.Browsers, newBrowser(i))
+	}
+	w.provision()
+	return w
+}
+
+// newSite builds and initialises one authboss instance. The first is the
+// deployment under test, wired to the simulator's seams. The second (see
+// Config.SecondSite) is an unrelated site hosted by the same process: plain
+// components, its own user store, never sent a request.
+func (w *World) newSite(second bool) *authboss.Authboss {
+	cfg := w.Cfg
+	ab := authboss.New()
+	jr := defaults.JSONRenderer{}
+	// the renderers first: SetCore hands the view renderer to the responder
+	if second {
+		ab.Config.Core.ViewRenderer = jr
+		ab.Config.Core.MailRenderer = jr
+	} else {
+		ab.Config.Core.ViewRenderer = simRenderer{w: w, inner: jr}
+		ab.Config.Core.MailRenderer = simRenderer{w: w, inner: jr, mail: true}
+	}
+	defaults.SetCore(&ab.Config, cfg.JSON, cfg.UseUsername)
+	reader := ab.Config.Core.BodyReader.(*defaults.HTTPBodyReader)
+	if second {
+		logger := defaults.NewLogger(io.Discard)
+		ab.Config.Core.Logger = logger
+		ab.Config.Core.ErrorHandler = defaults.NewErrorHandler(logger)
+		ab.Config.Core.Mailer = defaults.NewLogMailer(io.Discard)
+		ab.Config.Core.Hasher = authboss.NewBCryptHasher(bcrypt.MinCost)
+		w.DB2 = newDB(w)
+		w.DB2.second = true
+		ab.Config.Storage.Server = w.DB2
+	} else {
+		logger := defaults.NewLogger(simLogger{w})
+		ab.Config.Core.Logger = logger
+		ab.Config.Core.ErrorHandler = simErrHandler{w: w, def: defaults.NewErrorHandler(logger)}
+		var innerMailer authboss.Mailer = defaults.NewLogMailer(io.Discard)
+		if cfg.SMTPMailer {
+			innerMailer = defaults.NewSMTPMailer("bad:::addr", nil)
+		}
+		ab.Config.Core.Mailer = simMailer{w: w, inner: innerMailer}
+		w.Reader = reader
+		ab.Config.Core.BodyReader = simBodyReader{inner: reader}
+		ab.Config.Core.Hasher = simHasher{w: w, inner: authboss.NewBCryptHasher(bcrypt.MinCost)}
+		ab.Config.Storage.Server = w.DB
+	}
 	pwRule := defaults.Rules{FieldName: "password", MinLength: cfg.PwMinLen, MinUpper: cfg.PwMinUpper,
 		MinLower: cfg.PwMinLower, MinNumeric: cfg.PwMinNum, MinSymbols: cfg.PwMinSym, AllowWhitespace: cfg.PwAllowSpace}
-	w.Reader.Rulesets["register"] = []defaults.Rules{w.Reader.Rulesets["register"][0], pwRule}
-	w.Reader.Rulesets["recover_end"] = []defaults.Rules{pwRule}
-	w.Reader.Whitelist["register"] = []string{"email", "password", "name"}
+	reader.Rulesets["register"] = []defaults.Rules{reader.Rulesets["register"][0], pwRule}
+	reader.Rulesets["recover_end"] = []defaults.Rules{pwRule}
+	reader.Whitelist["register"] = []string{"email", "password", "name"}
 
 	ab.Config.Modules.BCryptCost = bcrypt.MinCost
-	ab.Config.Core.Hasher = simHasher{w: w, inner: authboss.NewBCryptHasher(bcrypt.MinCost)}
-	ab.Config.Storage.Server = w.DB
 	ab.Config.Storage.SessionState = &stateRW{w: w, kind: "session"}
 	ab.Config.Storage.CookieState = &stateRW{w: w, kind: "cookie"}
 	ab.Config.Storage.SessionStateWhitelistKeys = append([]string(nil), cfg.Whitelist...)
@@ -554,7 +597,11 @@ func NewWorld(t *testing.T, cfg Config, seed uint64, concurrent bool) *World {
 		case "totp":
 			err = (&totp2fa.TOTP{Authboss: ab}).Setup()
 		case "sms":
-			err = (&sms2fa.SMS{Authboss: ab, Sender: simSMS{w}}).Setup()
+			var sender sms2fa.SMSSender = simSMS{w}
+			if second {
+				sender = nullSMS{}
+			}
+			err = (&sms2fa.SMS{Authboss: ab, Sender: sender}).Setup()
 		case "recovery":
 			err = (&twofactor.Recovery{Authboss: ab}).Setup()
 		case "expire":
@@ -564,17 +611,12 @@ func NewWorld(t *testing.T, cfg Config, seed uint64, concurrent bool) *World {
 			panic("sim: setup " + s + ": " + err.Error())
 		}
 	}
-	w.lockMod = &lock.Lock{Authboss: ab}
-	w.confirmMod = &confirm.Confirm{Authboss: ab}
-
-	w.Handler = w.buildHandler()
-
-	for i := 0; i < cfg.NBrowsers; i++ {
-		w.Browsers = append(w.Browsers, newBrowser(i))
-	}
-	w.provision()
-	return w
+	return ab
 }
+
+type nullSMS struct{}
+
+func (nullSMS) Send(ctx context.Context, number, text string) error { return nil }
 
 // Close restores process-wide state.
 func (w *World) Close() { rand.Reader = w.origRand }
@@ -619,7 +661,7 @@ var sessionKeysOfInterest = []string{
 	authboss.Session2FAAuthToken, authboss.Session2FAAuthed, authboss.SessionOAuth2State, authboss.SessionOAuth2Params,
 	totp2fa.SessionTOTPSecret, totp2fa.SessionTOTPPendingPID,
 	sms2fa.SessionSMSNumber, sms2fa.SessionSMSSecret, sms2fa.SessionSMSLast, sms2fa.SessionSMSPendingPID,
-	authboss.FlashSuccessKey, authboss.FlashErrorKey, "app_theme", "app_cart", "app_other",
+	authboss.FlashSuccessKey, authboss.FlashErrorKey, "app_theme", "app_cart", "app_other", "app_theme2", "guid",
 }
 
 // Probe routes:
@@ -721,6 +763,19 @@ func (w *World) provision() {
 		row.OTPs = strings.Join(otps, ",")
 		w.DB.put(row)
 		w.Accts = append(w.Accts, a)
+	}
+	if w.DB2 != nil {
+		// the second site knows the same identifiers; there each has the
+		// password the next account has on the first site, and nothing gates
+		// or protects it
+		n := len(w.Accts)
+		for i, a := range w.Accts {
+			h, err := bcrypt.GenerateFromPassword([]byte(w.KB.Password[(i+1)%n]), bcrypt.MinCost)
+			if err != nil {
+				panic(err)
+			}
+			w.DB2.put(&Row{PID: a.PID, Email: a.Email, Password: string(h), Confirmed: true})
+		}
 	}
 }
 
